@@ -468,7 +468,10 @@ impl<'a, SE: extensions::ShellExtensions> SimpleCommand<'a, SE> {
             // Update $_ after command execution.
             shell.update_last_arg_variable(last_arg);
 
-            result
+            // The builtin ran in its own copy of the shell, so it can't affect the control flow
+            // of the shell that waits for it (e.g., `true | exit 3`); only its exit status is
+            // of interest.
+            result.map(|result| ExecutionResult::from(result.exit_code))
         });
 
         ExecutionSpawnResult::StartedTask(join_handle)
